@@ -106,6 +106,8 @@ class LPoly():
         Only Laurent polynomials of the same parity can be added together in order to preserve parity.
         '''
         if self.iszero:
+            if other.iszero:
+                return LPoly([], other.dmin)
             return LPoly(other.coefs, other.dmin)
         if other.iszero:
             return LPoly(self.coefs, self.dmin)
@@ -122,6 +124,8 @@ class LPoly():
         '''
         Conjugation of a Laurent polynomial maps f(w) to f(w^-1).
         '''
+        if self.iszero:
+            return LPoly([], -self.dmin)
         dmin = -self.dmax
         coefs = self.coefs[::-1]
         return LPoly(coefs, dmin)
